@@ -14,6 +14,9 @@ def wrapper_lemmas(chk, tier):
     for name, c in cs.items():
         if not c.cands:
             continue
+        nn = max(len(c.nodes_min), len(c.nodes_max))
+        if nn > 1:
+            ls.append(xh.Lemma("wnode_%s" % name, [("k", "int"), ("maximal", "bool"), ("node", "int"), ("pos", "int")], ["return W.extra_at_node_ok(%r, k, maximal, node, pos)" % name], pre=["0 <= k < %d" % len(c.cands), "0 <= node < (%d if maximal else %d)" % (len(c.nodes_max), len(c.nodes_min)), "0 <= pos < 2"], meta={"site": "%s: undeclared key on one nested object node through its hand-written structure function" % name, "cls": name, "node": True}, cost=len(c.cands) * nn))
         ls.append(xh.Lemma("wrap_%s" % name, [("k", "int"), ("maximal", "bool"), ("pos", "int")], ["return W.extra_ok(%r, k, maximal, pos)" % name], pre=["0 <= k < %d" % len(c.cands), "0 <= pos < 2"], meta={"site": "%s: undeclared alias-like key through the hand-written wrapper of its structure function" % name, "cls": name}, cost=len(c.cands)))
     results, stats = xh.run(ls, ["from vlib import wraprt as W", "W.cases()"], timeout=300 if tier == "thorough" else 120, label="c15w")
     chk.ev.add_counts(xh.summarize(results))
@@ -28,7 +31,11 @@ def wrapper_lemmas(chk, tier):
             c = cs[l.meta["cls"]]
             cand = c.cands[r.args["k"]]
             base = dict(c.tmax if r.args["maximal"] else c.tmin)
-            j = {cand: "alias-payload", **base} if r.args["pos"] == 0 else {**base, cand: "alias-payload"}
+            if l.meta.get("node"):
+                nodes = c.nodes_max if r.args["maximal"] else c.nodes_min
+                j = wraprt._with_extra_at(base, nodes[r.args["node"]], cand, ["alias-payload"], r.args["pos"] == 0)
+            else:
+                j = {cand: "alias-payload", **base} if r.args["pos"] == 0 else {**base, cand: "alias-payload"}
             code = dispatch_check._extra_code(base, j, c.name)
             from vlib import leafrt
 
